@@ -326,9 +326,10 @@ def _is_sumsq(ctx, lp):
     return True
 
 
-def nf_prove(pairs, hyp=None, subst=None):
+def nf_prove(pairs, hyp=None, subst=None, inv_atoms=False):
     """pairs: [(entry, lhs, rhs)].  Returns (ctx, [(entry, ok, msg)]).  Exceptions -> Infra at caller."""
     ctx = poly.Ctx()
+    ctx.inv_atoms = inv_atoms
     if callable(subst):
         ctx.subst = subst(ctx)
     elif subst:
